@@ -121,7 +121,13 @@ def run(ctx):
         "reading it on a calculation sheet; trim_graph called with the input and output addresses in every valid "
         "spelling (canonical text, quoted sheet name, absolute $A$1 / $A1 / A$1, lower-case column, AddressCell / "
         "AddressRange objects), later set_value / evaluate through a spelling too; same legs (yml, json and pkl) and "
-        "oracle")
+        "oracle. Numpy-frozen stream (oracle only, bit for bit): columns A (x) and B (y = three-digit numbers times "
+        "10^e, e in -15..-3 and 3..15, a few cases of magnitude 1 and a few all-integer ones) read by input-independent "
+        "formulas that return NUMPY scalars (SUMPRODUCT, SLOPE, INTERCEPT, FORECAST, TREND, INDEX(LINEST()), arithmetic "
+        "on those), which trim_graph therefore freezes; the outputs combine them with the input E1 (products that "
+        "multiply the small constants up, quotients, EXP, LN, a SUM over the frozen cells, the text of one); "
+        "untrimmed vs trimmed vs trimmed+saved+loaded through yml, json and pkl, 3 assignment rounds of E1 over "
+        "1e-3..1e12: class and every bit of every output (float.hex)")
     nwb = ctx.n(200, 2000)
     nchain = ctx.n(70, 700)
     model_batch = []
@@ -268,6 +274,11 @@ def run(ctx):
         import traceback
         ctx.broke("harness: spelling_stream failed", traceback.format_exc())
     colb_stream(ctx, ExcelCompiler)
+    try:
+        numpy_frozen_stream(ctx, ExcelCompiler)
+    except Exception:      # noqa: BLE001
+        import traceback
+        ctx.broke("harness: numpy_frozen_stream failed", traceback.format_exc())
     shutil.rmtree(ctx.work, ignore_errors=True)
 
 
@@ -405,6 +416,164 @@ def colb_stream(ctx, ExcelCompiler):
                 ctx.divergence(dict(case, leg='untrimmed'), want, vals,
                                'Model/Graph.v evaluate = untrimmed ExcelCompiler.evaluate (two-column workbook)')
     ctx.extra['correspondence_colb'] = compared
+
+
+# ------------------------------------------------------------------ frozen numpy scalars of any magnitude
+@known_predicate('C08-frozen-numpy-int')
+def _frozen_numpy_int(case):
+    """numpy-frozen stream, the save/load leg raises, and trim_graph froze a cell holding a numpy INTEGER (listed by
+    the stream from the trimmed cell map: an all-integer SUMPRODUCT, FACTDOUBLE) - nothing else is matched"""
+    return case.get('call') == 'trim-numpy-frozen' and case.get('leg') == 'save/load' and \
+        bool(case.get('frozen_numpy_int')) and case.get('raises') in ('RepresenterError', 'TypeError')
+
+
+NUMPY_CONST_FORMS = [
+    lambda n, j: f'=SUMPRODUCT(A1:A{n},B1:B{n})',
+    lambda n, j: f'=SUMPRODUCT(A1:A{n},B1:B{n})',
+    lambda n, j: f'=SLOPE(B1:B{n},A1:A{n})',
+    lambda n, j: f'=INTERCEPT(B1:B{n},A1:A{n})',
+    lambda n, j: f'=FORECAST({j + 4},B1:B{n},A1:A{n})',
+    lambda n, j: f'=TREND(B1:B{n},A1:A{n})',
+    lambda n, j: f'=INDEX(LINEST(B1:B{n},A1:A{n}),{1 + j % 2})',
+]
+NUMPY_INPUT_VALUES = [1, 2, 3.5, 7, 1000, 0.25, 1e-3, 1e9, 1e12, 31557600, -2, 0.1]
+
+
+def exact_bits(v):
+    """class and every bit of a result: a numpy float counts as the float it holds, a numpy integer as the int"""
+    import numpy as np
+    if isinstance(v, (bool, np.bool_)):
+        return ['bool', bool(v)]
+    if isinstance(v, (float, np.floating)):
+        return ['float', float(v).hex()]
+    if isinstance(v, (int, np.integer)):
+        return ['int', int(v)]
+    if isinstance(v, (tuple, list)):
+        return [exact_bits(x) for x in v]
+    return v
+
+
+def numpy_frozen_stream(ctx, ExcelCompiler):
+    """Oracle only.  Sheet S: A1:An (x) and B1:Bn (y) constants, the input E1, column C = formulas over A and B only
+    (input-independent) that return numpy scalars - SUMPRODUCT, SLOPE, INTERCEPT, FORECAST, TREND, INDEX(LINEST()) -
+    and arithmetic on them; y = three-digit numbers times 10^e with e in -15..-3 or 3..15 (a few cases of magnitude 1,
+    a few all-integer cases: numpy integers), so the frozen values range over 1e-15 .. 1e+15.  Column D = outputs
+    combining column C with E1: products that multiply the small constants up, quotients, EXP(-c*E1), LN(2)/c/E1, a
+    SUM over the frozen cells, the text of a frozen value.  trim_graph([E1], outputs) freezes column C.  Legs:
+    untrimmed, trimmed (before / after the first evaluate), trimmed + saved + loaded through yml, json and pkl;
+    3 rounds of assignment of E1.  Every output of every leg = the untrimmed model's, class and bits (float.hex)."""
+    import numpy as np
+    import openpyxl
+    rng = ctx.rng
+    for k in range(ctx.n(24, 300)):
+        n = rng.randrange(3, 7)
+        integers = k % 8 == 5
+        e = 0 if integers or k % 8 == 1 else rng.choice([-1, 1]) * rng.randrange(3, 16)
+        xs = rng.sample([1, 2, 3, 4, 5, 7, 10, 12] if integers else [1, 2, 3, 4, 5, 7, 10, 0.5, 2.5, 12], n)
+        ys = [rng.randrange(1, 60) if integers else float(f'{rng.randrange(100, 1000) / 100}e{e}') for _ in range(n)]
+        cells = {}
+        for r, (x, y) in enumerate(zip(xs, ys), 1):
+            cells[f'A{r}'], cells[f'B{r}'] = x, y
+        cells['E1'] = rng.choice([1, 2, 3, 3600.0, 0.5])
+        m = rng.randrange(2, 5)
+        for j in range(1, m + 1):
+            cells[f'C{j}'] = (NUMPY_CONST_FORMS[0] if j == 1 and k % 2 else rng.choice(NUMPY_CONST_FORMS))(n, j)
+        if integers and rng.random() < 0.5:
+            cells[f'C{m}'] = f'=FACTDOUBLE(A{rng.randrange(1, n + 1)})'
+        for j in range(m + 1, m + 1 + rng.randrange(0, 3)):       # arithmetic on the numpy results
+            u, v = rng.randrange(1, m + 1), rng.randrange(1, m + 1)
+            cells[f'C{j}'] = rng.choice([f'=C{u}*2', f'=C{u}/C{v}', f'=C{u}-C{v}', f'=C{u}*C{v}', f'=C{u}+B1'])
+            m = j
+        outs = []
+        for j in range(1, rng.randrange(3, 6)):
+            u, v = rng.randrange(1, m + 1), rng.randrange(1, m + 1)
+            big = 10 ** rng.choice([6, 9, 12, 15])
+            cells[f'D{j}'] = rng.choice([
+                f'=C{u}*E1', f'=E1*C{u}*{big}', f'=C{u}*{big}+E1', f'=E1/C{u}', f'=C{u}+E1*C{v}',
+                f'=IF(C{u}>0,LN(2)/C{u}/E1,"never")', f'=EXP(-C{u}*E1)', f'=SUM(C1:C{m})*E1', f'=C{u}&""&E1',
+                f'=MAX(C1:C{m})-E1', f'=(C{u}-C{v})*E1', f'=C{u}*E1=C{v}*E1'])
+            outs.append(f'S!D{j}')
+        desc = [(f'S!{a}', None, v) if isinstance(v, str) else (f'S!{a}', v, None) for a, v in cells.items()]
+        case = dict(call='trim-numpy-frozen', workbook=desc, args=[['S!E1'], outs], magnitude=f'1e{e}')
+        early = rng.random() < 0.5
+
+        def build():
+            owb = openpyxl.Workbook()
+            ws = owb.active
+            ws.title = 'S'
+            for a, v in cells.items():
+                ws[a] = v
+            return owb
+        try:
+            full = ExcelCompiler(excel=build())
+            trimmed = ExcelCompiler(excel=build())
+            if not early:
+                trimmed.evaluate(outs)
+            trimmed.trim_graph(['S!E1'], outs)
+        except Exception as exc:      # noqa: BLE001
+            ctx.violation(case, f"trim_graph raises {type(exc).__name__}: {exc}"[:200])
+            continue
+        frozen = {a: c.value for a, c in trimmed.cell_map.items() if a.startswith('S!C') and not c.formula}
+        kinds = sorted({type(v).__name__ for v in frozen.values()})
+        np_int = sorted(a for a, v in frozen.items() if isinstance(v, np.integer))
+        ctx.count(('numpy-frozen', k), kind='trim-numpy-frozen:' + ('integers' if integers else f'1e{e:+03d}'),
+                  sample=dict(case, early=early, frozen={a: repr(v) for a, v in frozen.items()}))
+        ctx.histogram['trim-numpy-frozen: frozen ' + '/'.join(kinds)] = \
+            ctx.histogram.get('trim-numpy-frozen: frozen ' + '/'.join(kinds), 0) + 1
+        legs = [('untrimmed', full), ('trimmed', trimmed)]
+        for ext in ('yml', 'json', 'pkl'):
+            stem = os.path.join(ctx.work, f'npf{k}_{ext}_m')
+            try:
+                trimmed.to_file(stem, file_types=(ext,))
+                legs.append((f'loaded:{ext}', ExcelCompiler.from_file(stem + '.' + ext)))
+            except Exception as exc:      # noqa: BLE001
+                ctx.violation(dict(case, leg='save/load', format=ext, early=early, frozen_numpy_int=np_int,
+                                   raises=type(exc).__name__),
+                              f"save/load of the trimmed model raises {type(exc).__name__}: {exc}"[:200])
+            for f in os.listdir(ctx.work):
+                if f.startswith(f'npf{k}_{ext}'):
+                    os.remove(os.path.join(ctx.work, f))
+        for rnd in range(3):
+            assign = {'S!E1': rng.choice(NUMPY_INPUT_VALUES)} if rnd else {}
+            res = {}
+            for name, comp in legs:
+                try:
+                    for a, v in assign.items():
+                        comp.set_value(a, v)
+                    res[name] = [exact_bits(comp.evaluate(o)) for o in outs]
+                except Exception as exc:      # noqa: BLE001
+                    res[name] = f'{type(exc).__name__}: {exc}'[:120]
+            for name, _ in legs[1:]:
+                if res[name] == res['untrimmed']:
+                    continue
+                shown = dict(case, leg=name, early=early, round=rnd, assign=assign,
+                             frozen={a: repr(v) for a, v in frozen.items()})
+                if not (isinstance(res[name], list) and isinstance(res['untrimmed'], list)):
+                    ctx.violation(shown, f"outputs of the {name.split(':')[0]} model differ from the untrimmed model",
+                                  impl=res[name], expected=res['untrimmed'])
+                    continue
+                for o, got, want in zip(outs, res[name], res['untrimmed']):      # every differing output on its own
+                    if got != want:
+                        ctx.violation(dict(shown, output=o, output_formula=cells[o.split('!')[1]],
+                                           diff='float-last-bits' if _last_bits(got, want) else 'other'),
+                                      f"an output of the {name.split(':')[0]} model differs from the untrimmed model "
+                                      "(class / bits)", impl=got, expected=want)
+
+
+def _last_bits(a, b):
+    """two exact_bits observations: floats that differ by rounding only (relative 1e-14)"""
+    if not (isinstance(a, list) and isinstance(b, list) and len(a) == 2 == len(b) and a[0] == 'float' == b[0]):
+        return False
+    u, v = float.fromhex(a[1]), float.fromhex(b[1])
+    return abs(u - v) <= 1e-14 * max(abs(u), abs(v))
+
+
+@known_predicate('C08-frozen-numpy-sum-rounding')
+def _frozen_numpy_sum(case):
+    """numpy-frozen stream, a LOADED leg, the differing output is a SUM over the range of frozen cells and the two
+    floats differ by rounding only: sum() adds exact floats with compensation and numpy floats one by one"""
+    return case.get('call') == 'trim-numpy-frozen' and str(case.get('leg', '')).startswith('loaded') and \
+        str(case.get('output_formula', '')).startswith('=SUM(C1:C') and case.get('diff') == 'float-last-bits'
 
 
 # ------------------------------------------------------------------ unbounded row / column ranges
